@@ -5,7 +5,11 @@ Local Open Scope Z_scope.
 
 (* ---------- disk ---------- *)
 Record disk := mkdisk { dk_exists : bool; dk_size : Z; dk_get : Z -> byte }.
-Definition empty_disk := mkdisk false 0 (fun _ => 0).
+(* a byte the library never wrote has no defined content (MPI-IO read-modify-write of
+   collective buffering may leave anything in never-written holes): UNDEF, printed "??" *)
+Definition UNDEF : byte := -1.
+Definition is_undef (b : byte) : bool := b <? 0.
+Definition empty_disk := mkdisk false 0 (fun _ => UNDEF).
 
 Definition dk_write (d : disk) (off : Z) (bs : list byte) : disk :=
   match bs with
